@@ -68,6 +68,9 @@ func atomEq(a strAtom, c byte) *Term {
 	if a.code == nil {
 		return mkBool(a.c == c)
 	}
+	if a.code.Op == "bv2nat" && a.code.Args[0].Sort == SBV8 {
+		return tEq(a.code.Args[0], mkBV(SBV8, uint64(c)))
+	}
 	return tEq(a.code, mkInt(int64(c)))
 }
 
